@@ -120,7 +120,19 @@ pub fn run(ctx: &Ctx, subjects: &[Box<dyn DynSubject>], seqs: &[SeqEntry], only_
             let pl = Placed::new(&bytes, 4096, 0);
             let full = guard(|| uu.full(&mut std::io::Cursor::new(&bytes[..])));
             let eps = guard(|| uu.eps(pl.bytes()).map(|o| o.val));
-            for (mode, r) in [("full", full), ("eps", eps)] {
+            // the same bytes with the recorded type *name* replaced by the reader's own (what a recompiled
+            // program with an edited definition would find): the verdict must not depend on the name
+            // (only where the header check must refuse: if the two hashes collide, which the plain reads
+            // above already report, the shifted value part would be parsed)
+            let mut modes = vec![("full", full), ("eps", eps)];
+            if differs && !(a.th == b.th && a.ah == b.ah) {
+                let renamed = rename_stream(&bytes, uu.std_type_name());
+                let plr = Placed::new(&renamed, 4096, 0);
+                modes.push(("full, type name in the stream set to the reader's", guard(|| uu.full(&mut std::io::Cursor::new(&renamed[..])))));
+                modes.push(("eps, type name in the stream set to the reader's", guard(|| uu.eps(plr.bytes()).map(|o| o.val))));
+                rep.evaluations += 2;
+            }
+            for (mode, r) in modes {
                 let hashes_collide = a.th == b.th && a.ah == b.ah;
                 let verdict: Result<(), (String, String)> = if a.dt != b.dt {
                     match &r {
@@ -170,6 +182,24 @@ pub fn run(ctx: &Ctx, subjects: &[Box<dyn DynSubject>], seqs: &[SeqEntry], only_
     rep.failures.sort_by(|a, b| (a.signature.clone(), a.subject.len()).cmp(&(b.signature.clone(), b.subject.len())));
     rep.failures.dedup_by(|a, b| a.signature == b.signature && a.subject == b.subject);
     rep
+}
+
+/// Replace the length-prefixed type name in a stream's header by `new_name`. Only used for pairs that must
+/// be refused by the header check, so the shift of the value part does not matter.
+fn rename_stream(bytes: &[u8], new_name: &str) -> Vec<u8> {
+    let fixed = vmodel::format::FIXED_HEADER;
+    if bytes.len() < fixed + 8 {
+        return bytes.to_vec();
+    }
+    let old_len = usize::from_ne_bytes(bytes[fixed..fixed + 8].try_into().unwrap());
+    if bytes.len() < fixed + 8 + old_len {
+        return bytes.to_vec();
+    }
+    let mut out = bytes[..fixed].to_vec();
+    out.extend_from_slice(&new_name.len().to_ne_bytes());
+    out.extend_from_slice(new_name.as_bytes());
+    out.extend_from_slice(&bytes[fixed + 8 + old_len..]);
+    out
 }
 
 fn show(r: &Result<deser::Result<Val>, String>) -> String {
